@@ -18,6 +18,9 @@ CLAIMED = {
  "C14": ("all-paths gate/typestate analysis + field provenance + sibling agreement over go/ssa",
          "Static: for the four gRPC wrappers, on every path: wrapped call only after a successful Acquire on a config limiter; same limiter field for Acquire and the limit-exceeded classifier, disjoint between RecvMsg/SendMsg and matching the option named for the direction; refusal returns status.Error(classifier code) with no wrapped call and no completion; exactly one completion on the token after the call with the Success/Ignore/Dropped mapping exhaustive over the declared constants; results returned unchanged; defaults before options. Handler panics and out-of-enum classifier results are not covered.",
          "5/C14"),
+ "C11": ("field provenance (config -> backlog), path-sensitive end/constant agreement, must-lockset over go/ssa",
+         "Static: the backlog's ordering is stored from the config's ordering read after ApplyDefaults; given the end at which push inserts, the FIFO case reads the opposite list end and the LIFO case the same end, exhaustively over the two constants; eviction removes exactly the selected element under the queue mutex; named constructors, the default and the pool orderings map to the like-named constants; unblock's peek/acquire/evict/deliver are one exclusive critical section. Necessary conditions of 'served in configured order'; arrival-order = push-order and scheduler effects are not decided.",
+         "5/C11"),
 }
 
 PENDING_REASON = "check not built yet in this session; see DESIGN.md section 5 for the planned static obligations"
